@@ -36,6 +36,20 @@ var c18Mode = os.Getenv("VERIF_C18")
 // follows, for every harness that emits one op per replayed line)
 var c18ForkAt = map[int]bool{}
 
+// c18WithMarkers puts the markers ReplayLines took out back into the lines it returned (the parent of a
+// replay hands the file on to its children: without them a continue-after-import replay would silently
+// degrade to a trace-end comparison).
+func c18WithMarkers(lines []string) []string {
+	var out []string
+	for i, l := range lines {
+		out = append(out, l)
+		if c18ForkAt[i+1] {
+			out = append(out, c18ForkMarker)
+		}
+	}
+	return out
+}
+
 // c18Event is one line of c18final.jsonl.
 type c18Event struct {
 	Kind string `json:"kind"` // epoch | fork | end
@@ -182,6 +196,19 @@ func c18CarryOver(r *Run, a, b *Fix, res *c18Result) (done []string) {
 		})
 		tried = append(tried, rep{sig, "sponsorship.canClaim", "sponsorship-claim-blacklist"})
 	}
+	if sig := "C18/queries/dymns.buyOrderCount-differs"; has(sig) {
+		// the all-time buy-order counter is not part of the dymns genesis (listed): copy it, so that the
+		// ids of the orders placed after the import are compared as well
+		b.App.DymNSKeeper.SetCountBuyOrders(b.Ctx, a.App.DymNSKeeper.GetCountBuyOrders(a.Ctx))
+		tried = append(tried, rep{sig, "dymns.buyOrderCount", "dymns-buy-order-count"})
+	}
+	if sig := "C18/queries/sponsorship.distributionZeroPowerEntries-differs"; has(sig) && !has("C18/queries/sponsorship.distribution-differs") {
+		// the stored entry list of the distribution differs in zero-power entries only (listed): copy it
+		if d, err := a.App.SponsorshipKeeper.GetDistribution(a.Ctx); err == nil {
+			_ = b.App.SponsorshipKeeper.SaveDistribution(b.Ctx, d)
+			tried = append(tried, rep{sig, "sponsorship.distributionZeroPowerEntries", "sponsorship-zero-power-entries"})
+		}
+	}
 	if len(tried) > 0 {
 		da, db := c18Dump(a), c18Dump(b)
 		for _, t := range tried {
@@ -193,6 +220,31 @@ func c18CarryOver(r *Run, a, b *Fix, res *c18Result) (done []string) {
 		}
 	}
 	return done
+}
+
+// c18ForkReplay: the replay of a package monitor that fires on the forked run is the running epoch WITH its
+// markers (the package's own replay lines do not know about the import); the op being executed is
+// appended when the monitor fires before it is emitted.
+func c18ForkReplay(r *Run, sig string, replay []string) []string {
+	if c18Mode != "fork" || len(sig) > 4 && sig[:4] == "C18/" {
+		return replay
+	}
+	forked, last := false, ""
+	for _, l := range c18fs.lines {
+		if l == c18ForkMarker {
+			forked = true
+		} else {
+			last = l
+		}
+	}
+	if !forked {
+		return replay
+	}
+	out := append([]string(nil), c18fs.lines...)
+	if n := len(replay); n > 0 && replay[n-1] != last {
+		out = append(out, replay[n-1])
+	}
+	return out
 }
 
 // c18Straddles: a package monitor that fires while the op at the fork point or the one after it is
